@@ -100,7 +100,8 @@ class SwitchCodeGenerator:
             )
 
         field_to_string_expression = (
-            f"{self._field_data.type_.name}(data._{self._field_name}).name"
+            f"({self._field_data.type_.name}(data._{self._field_name}).name"
+            + f" if data._{self._field_name} is not None else 'None')"
             if isinstance(self._field_data.type_, EnumType)
             else f"str(data._{self._field_name})"
         )
